@@ -372,8 +372,15 @@ class ModelFile:
         self, xtypes: cabc.Container[str]
     ) -> cabc.Iterator[etree._Element]:
         """Iterate over all elements in this tree by ``xsi:type``."""
+        semantic = self.fragment_type is FragmentType.SEMANTIC
         for xtype, elms in self.__xtypecache.items():
-            if xtype in xtypes:
+            if xtype not in xtypes:
+                continue
+            if semantic:
+                # A placeholder stands for an element which is found
+                # in its own fragment.
+                yield from (i for i in elms.values() if "href" not in i.attrib)
+            else:
                 yield from elms.values()
 
     def write_xml(
